@@ -81,7 +81,15 @@ def build(cellname, patname, copies, rnd, noise=0.0, decoys=0, mirror_decoys=0, 
     rnd.shuffle(grid)
     total = copies + mirror_decoys + near_miss + bent
     rots = rotations(rnd, total, include_axis=False)
-    if tilt is not None:
+    if tilt == 'inverse-pairs':
+        # poses that are each other's inverse, or have mirror-related axes: q and q^-1, (x, y, z, w) and (-x, y, z, w)
+        base = rotations(rnd, (total + 1) // 2, include_axis=False)
+        rots = []
+        for r in base:
+            x, y, z, w = r.as_quat()
+            rots += [r, r.inv() if len(rots) % 4 == 0 else R.from_quat([-x, y, -z, w])]
+        rots = rots[:total]
+    elif tilt is not None:
         # copies that are (almost) aligned with the pattern as written: turned by the given small angles (radians) about random axes
         rots = []
         for ci in range(total):
